@@ -344,9 +344,20 @@ class Lockstep:
                 if info["library"] and info["class"] not in ("TransportError", "TransportFailedError", "TransportReadError"):
                     if not exp.error or info["class"] not in exp.error:
                         self.bad("C04", "wrong-error-class", f"{line!r:.80}: a reply write failed, listen raised {info['class']}")
-            expected = Counter(item for _tag, item in exp.writes)
-            extra = [w for w in (Counter(writes) - expected).elements()
-                     if not ((split_line(w) or (0,) * 6)[2] == 3 and (split_line(w) or (0,) * 6)[4] == spec.I_TIME)]
+            expected = Counter(item for tag, item in exp.writes if tag not in ("time", "idresp"))
+            addressed = {(tag, item) for tag, item in exp.writes if tag in ("time", "idresp")}
+
+            def specified_reply(w: str) -> bool:
+                parsed = split_line(w) or (0,) * 6
+                if parsed[2] != 3:
+                    return False
+                if parsed[4] == spec.I_TIME:
+                    return ("time", (parsed[0], parsed[1])) in addressed
+                if parsed[4] == spec.I_ID_RESPONSE:
+                    return ("idresp", (parsed[0], parsed[1])) in addressed
+                return False
+
+            extra = [w for w in (Counter(writes) - expected).elements() if not specified_reply(w)]
             if extra:
                 self.bad("C06", "unspecified-write", f"after {line!r:.80} (a reply write failed): wrote {extra}, specified "
                                                      f"reactions {[item for _t, item in exp.writes]}")
